@@ -44,8 +44,8 @@ def parse(path):
 
 
 # quick tier: every mutator of every non-functional property with at most 4 value kinds (16 packages) is verified;
-# the 28 properties with 60+ kinds get the slot semantics of every element, the observers, Swap, AppendIRI and
-# SetIRI, and for these two also every mutator (incl. Remove) of two kinds (the IRI and the first embedded kind).
+# the 28 properties with 60+ kinds get the slot semantics of every element, the observers, Swap, Remove, AppendIRI,
+# PrependIRI and SetIRI, and for these two also every mutator of the first embedded kind.
 # The thorough tier verifies every mutator of every kind of every property (about 25 minutes).
 REPRESENTATIVE_TWO_KINDS = {"property_to", "property_ordereditems"}
 
@@ -235,7 +235,7 @@ def emit_seq(L, pkgpath, pname, iname, slot, meths, stats, level):
                 "[C18] ensures exchanged: %s[%s] == old(%s[%s]) && %s[%s] == old(%s[%s])" % (P, i, P, j, P, j, P, i),
                 "[C18] ensures others_in_place: forall k Int :: {%s[k]} 0 <= k && k < len(%s) && k != %s && k != %s ==> %s[k] == old(%s[k])" % (P, P, i, j, P, P),
                 "[C18] ensures iterators_know_their_new_position: %s[%s].myIdx == %s && %s[%s].myIdx == %s" % (P, i, i, P, j, j)], ps)
-        elif name == "Remove" and len(ps) == 1 and not (level == "quick" and len(slot.kinds) > 4 and os.path.basename(pkgpath) not in REPRESENTATIVE_TWO_KINDS):
+        elif name == "Remove" and len(ps) == 1:
             x = ps[0]
             fn(name, m["ptr"], [
                 "[C18] requires in_range: 0 <= %s && %s < len(%s)" % (x, x, P),
@@ -261,7 +261,7 @@ def emit_seq(L, pkgpath, pname, iname, slot, meths, stats, level):
                     continue
             if level == "iri" and k != "iri":
                 continue
-            if level == "quick" and len(slot.kinds) > 4 and not (k == "iri" and op in ("Append", "Set")):
+            if level == "quick" and len(slot.kinds) > 4 and not (k == "iri" and op in ("Append", "Set", "Prepend")):
                 if not (os.path.basename(pkgpath) in REPRESENTATIVE_TWO_KINDS and (k == "iri" or k is slot.kinds[0])):
                     continue
             if op == "Append" and len(ps) == 1:
